@@ -29,6 +29,8 @@ def run(res, proofs_ok, proofs_why):
             res.nontriv(r["tag"] + r["data"].hex())
         if ck != rk:
             why.append("open: C library %s, Rust client %s" % (ck, rk))
+        elif ck != F.oracle_open(r["kind"], r["data"]):
+            why.append("open: both libraries give %s; clockbound.h and the documentation give %s for this file (kind:errno:origin)" % (ck, F.oracle_open(r["kind"], r["data"])))
         if cn != rn:
             why.append("now(): C library %s, Rust client %s (same segment, same instant)" % (cn, rn))
         if "panic" in (rn, cn):
@@ -49,6 +51,9 @@ def run(res, proofs_ok, proofs_why):
             mbytes = bytes(int(x) for x in wm.split()[1:]) if wm.startswith("W:ok") else None
             if mbytes != after:
                 diffs.append({"case": F.describe(r), "what": "daemon bytes differ from Layout.encode", "impl_hex": after.hex(), "model_hex": mbytes.hex() if mbytes else None})
+        if r["kind"] != 2 and after is not None and len(after) < 72 and r["wrt"].startswith("W:ok"):
+            why.append("after the daemon started over this file and published, the file is %d bytes long: PROTOCOL.md gives the segment 72 bytes "
+                       "(header + record); the record is not in the file" % len(after))
         if why:
             bad.append({"case": F.describe(r), "why": why})
     # the same live segment: the daemon publishes a new record while the call is reading its first clock;
